@@ -663,6 +663,11 @@ def run(ctx):
                    ["Struct", [["a", ["Array", 2, B]], ["bits", ["Bitwise", ["Struct", [["xs", ["Array", 2, ["name", "Nibble"]]], ["ys", ["Array", 2, ["name", "Nibble"]]]]]]], ["b", ["Array", 2, B]]]]):
             for _ in range(ctx.pick(4, 20)):
                 run_recipe(ctx, rng, rr)
+        # a member named twice (a named field object embedded under another name): the schema uses the name parse uses, the outer one
+        for inner in (["Renamed", "inner", B, None], ["Renamed", "inner", ["name", "Int16ub"], "inner docs"], ["Renamed", "inner", ["Struct", [["a", B], ["b", B]]], None]):
+            for _ in range(ctx.pick(2, 8)):
+                run_recipe(ctx, rng, ["Struct", [["h", B], [None, ["Renamed", "outer", inner, None]], ["t", B]]])
+                run_recipe(ctx, rng, ["Struct", [[None, ["Renamed", "outer", inner, "outer docs"]], ["xs", ["Array", 2, ["Struct", [[None, ["Renamed", "o2", inner, None]]]]]]]])
         # repeat-until predicates with every comparison, on data that hits the bound exactly
         for cmp_, bound in (("<=", 0x7f), ("<", 0x80), (">=", 0x80), (">", 0x7f), ("==", 0), ("!=", 0xff)):
             for _ in range(ctx.pick(3, 12)):
